@@ -10,7 +10,9 @@ Myhill–Nerode index computed by an independent Moore refinement (complete resu
 the number of live residual classes, at least one (partial result); a partial result
 has no dead state unless it is its only state; minimising the result again keeps its
 size; retained names are EXACTLY the classes of merged source states (independent Moore
-refinement on the source handed to `_minify`).  PART_REFINE: the real `PartitionRefinement`
+refinement on the source handed to `_minify`).  Round 4 (`do_chain`): chains X1 = op1(A), X2 = op2(X1), X3 = op3(X2)
+of minimising calls, each made on the object the previous call returned and judged with the same oracles against THAT
+object's definition (a result must not carry anything that changes what the next call on it does).  PART_REFINE: the real `PartitionRefinement`
 vs. the model's `Part.refine`, on random histories and on every refine call logged inside
 the real `_minify` (partition as a set of sets and returned pairs after every call).
 """
@@ -35,6 +37,10 @@ RULE = ("cases = (DFA, retain_names) for minify(), plus minify=True paths of uni
         "unjudged queries, one step often repeated — on operands built under allow_mutable_automata=True from PLAIN "
         "set/dict containers (option left on or switched off again for the calls), every minify=True result judged "
         "(language, minimality, minimal-again, exact retained names) against a FROZEN TWIN = the definition as built; "
+        "chains of 2–3 minimising calls (minify / to_partial / complement / Boolean operations / from_nfa first, both "
+        "retain_names values in every position) each made on THE OBJECT the previous call returned (or a copy / a rebuilt "
+        "DFA), every call judged — incl. the exact retained names — against the object it was made on (all pairs of calls on 4 "
+        "fixed DFAs, then random); "
         "non-trivial = source has ≥3 reachable "
         "states and minimisation merges or removes at least one of them; distinct = distinct encoded sources")
 ASSUMPTIONS = [
